@@ -278,6 +278,7 @@ EXC = {
     'TemporaryPythiaError': pythia.TemporaryPythiaError,
     'Exception': _Boom, 'RpcError': _RpcBoom,
     'IndexError': IndexError, 'AssertionError': AssertionError,
+    'NotImplementedError': NotImplementedError,
 }
 
 HNS = 'harness'
